@@ -311,3 +311,50 @@ Eval vm_compute in map Z.of_nat (move lab0 1 3 [0;0]).
 Print Assumptions g_find_point_donor_eq.
 Print Assumptions g_move_random_points_eq.
 Print Assumptions g_move_random_points_eq_gen.
+
+(* ---- update_cluster_member_data_statistics as translated: mean and covariance are computed from exactly the rows listed in
+   the cluster's member list, in that order, and the estimator flag handed to np.cov is  biased or size < 2  (np.cov and
+   np.mean are uninterpreted symbols) ---- *)
+From Ticc Require Import Model.Viterbi Model.Stats.
+Section S.
+  Variable F : Type.
+  Variable M : Type.
+  Variable np_cov_of_rows : arr2 F -> bool -> M.
+  Variable np_mean_rows : arr2 F -> list F.
+
+  Lemma st_getitem_nat {A : Type} (l : list A) (k : nat) (d : A) :
+    (k < length l)%nat -> py_getitem l (Z.of_nat k) = Ret (nth k l d).
+  Proof.
+    intros Hk. unfold py_getitem, py_len. cbv zeta.
+    assert (E1 : (Z.of_nat k <? 0)%Z = false) by (apply Z.ltb_ge; lia).
+    assert (E2 : (Z.of_nat (length l) <=? Z.of_nat k)%Z = false) by (apply Z.leb_gt; lia).
+    rewrite E1. cbv iota. rewrite E1, E2. cbn [orb]. rewrite Nat2Z.id, (nth_error_nth' l d Hk). reflexivity.
+  Qed.
+
+  Theorem g_update_cluster_statistics_eq (T NW : nat) (data : list (list F)) (members : list nat) (cov0 : M) (mean0 : list F) (biased : bool) :
+    members <> [] -> Forall (fun p => (p < T)%nat) members -> length data = T ->
+    let X := mk_arr2 (Z.of_nat (length members)) (Z.of_nat NW) (select members data) in
+    g_update_cluster_member_data_statistics F M np_cov_of_rows np_mean_rows
+      (mk_st_cluster (Z.of_nat (length members)) (map Z.of_nat members) cov0 mean0) (mk_arr2 (Z.of_nat T) (Z.of_nat NW) data) biased
+    = Ret (mk_st_cluster (Z.of_nat (length members)) (map Z.of_nat members)
+             (np_cov_of_rows X (biased || Nat.ltb (length members) 2)) (np_mean_rows X)).
+  Proof.
+    intros Hne Hin Hlen X.
+    unfold g_update_cluster_member_data_statistics. cbn [sc_size sc_member_points].
+    assert (Hpos : (Z.of_nat (length members) >? 0)%Z = true).
+    { destruct members as [|p r]; [contradiction|]. cbn [length]. apply Z.gtb_lt. lia. }
+    rewrite Hpos. unfold np_take_rows. cbn [a_cells a_cols].
+    rewrite (mapM_pure _ (fun z => nth (Z.to_nat z) data [])).
+    2:{ intros z Hz. apply in_map_iff in Hz. destruct Hz as [k [Hz Hk]]. subst z. rewrite Nat2Z.id.
+        apply st_getitem_nat. rewrite Hlen. rewrite Forall_forall in Hin. apply Hin. exact Hk. }
+    cbn [bind]. rewrite map_map.
+    assert (Hsel : map (fun x : nat => nth (Z.to_nat (Z.of_nat x)) data []) members = select members data).
+    { unfold select. apply map_ext. intros k. rewrite Nat2Z.id. reflexivity. }
+    rewrite Hsel. unfold py_len. rewrite map_length.
+    assert (Hlt : (Z.of_nat (length members) <? 2)%Z = Nat.ltb (length members) 2).
+    { destruct (Nat.ltb_spec (length members) 2) as [H|H]; [apply Z.ltb_lt|apply Z.ltb_ge]; lia. }
+    rewrite Hlt. unfold set_sc_stacked_data_mean, set_sc_empirical_covariance.
+    cbn [sc_size sc_member_points sc_empirical_covariance sc_stacked_data_mean]. reflexivity.
+  Qed.
+End S.
+Print Assumptions g_update_cluster_statistics_eq.
